@@ -48,7 +48,13 @@ type RCase struct {
 	// the client is offline. What the session was told last (CONNECT or DISCONNECT) is what the new process applies.
 	// Only decided where "from the end of the connection" and "from the restart" give the same answer.
 	Restart bool `json:",omitempty"`
+	// RefuseQueueDel: the broker runs on redis and, at the moment the session is ended (Terminate, or the end of an
+	// expiry-0 session), redis refuses the DEL of the session's queue. The session has ended all the same.
+	RefuseQueueDel bool `json:",omitempty"`
 }
+
+// RedisCfgFault is RedisCfg plus arm(cmd, key): redis refuses the next such command with an error reply.
+var RedisCfgFault func(c *config.Config) (cleanup func(), arm func(cmd, key string), err error)
 
 // RedisCfg (set by the registration code) switches a configuration to the redis back end on a private fake redis.
 var RedisCfg func(c *config.Config) (func(), error)
@@ -89,15 +95,20 @@ func runResume(c RCase, idx int) (fs []finding, incon string, rerr error) {
 	add := func(sig, what string) { fs = append(fs, finding{sig, what}) }
 	var redisAddr string
 	var closeRedis func()
+	var arm func(cmd, key string)
 	startBroker := func() (*broker.Broker, error) {
 		return broker.Start(broker.Options{Cfg: func(cf *config.Config) {
 			cf.MQTT.SessionExpiry = time.Duration(c.CfgExpiry) * time.Second
 			cf.MQTT.MessageExpiry = 0
-			if !c.Restart {
+			if !c.Restart && !c.RefuseQueueDel {
 				return
 			}
 			if redisAddr == "" {
-				if cl, err := RedisCfg(cf); err == nil {
+				if c.RefuseQueueDel {
+					if cl, a, err := RedisCfgFault(cf); err == nil {
+						closeRedis, redisAddr, arm = cl, cf.Persistence.Redis.Addr, a
+					}
+				} else if cl, err := RedisCfg(cf); err == nil {
 					closeRedis, redisAddr = cl, cf.Persistence.Redis.Addr
 				}
 			} else {
@@ -106,7 +117,7 @@ func runResume(c RCase, idx int) (fs []finding, incon string, rerr error) {
 			}
 		}})
 	}
-	if c.Restart && RedisCfg == nil {
+	if (c.Restart && RedisCfg == nil) || (c.RefuseQueueDel && RedisCfgFault == nil) {
 		return nil, "", fmt.Errorf("no redis back end registered")
 	}
 	b, err := startBroker()
@@ -171,6 +182,9 @@ func runResume(c RCase, idx int) (fs []finding, incon string, rerr error) {
 	E := c.effExpiry()
 	if !c.Takeover {
 		from := b.Log.Len()
+		if c.RefuseQueueDel && arm != nil && E == 0 {
+			arm("DEL", "queue:"+id) // the session ends with this connection
+		}
 		switch c.End {
 		case "disconnect":
 			c1.Disconnect(0, nil)
@@ -190,6 +204,9 @@ func runResume(c RCase, idx int) (fs []finding, incon string, rerr error) {
 			b.Publish("r/"+id, "while-offline", 1, false)
 		}
 		if c.Terminate {
+			if c.RefuseQueueDel && arm != nil && E != 0 {
+				arm("DEL", "queue:"+id)
+			}
 			b.Srv.ClientService().TerminateSession(id)
 		}
 		base := tEnd
@@ -253,6 +270,9 @@ func runResume(c RCase, idx int) (fs []finding, incon string, rerr error) {
 	kind := fmt.Sprintf("v=%d:end=%s:takeover=%v:connected_longer_than_expiry=%v", c.V, c.End, c.Takeover, E > 0 && int64(c.ConnectFor) > E*1000)
 	if c.Restart {
 		kind += ":restart=true"
+	}
+	if c.RefuseQueueDel {
+		kind += ":queue_del_refused=true"
 	}
 	if ack2.SessionPresent != wantSP {
 		add(fmt.Sprintf("resume.session_present:got=%v:want=%v:%s", ack2.SessionPresent, wantSP, kind),
@@ -391,6 +411,14 @@ func resumeCases(rng *rand.Rand, n int) []RCase {
 			RCase{V: 5, CfgExpiry: 7200, ReqExpiry: 3600, End: "disconnect_new_expiry", NewExpiry: 0, OfflineMs: 100, Restart: true},  // ended at DISCONNECT, restart
 			RCase{V: 5, CfgExpiry: 2, ReqExpiry: 3600, End: "close", OfflineMs: 2900, Restart: true},                                  // capped, restart
 			RCase{V: 4, CfgExpiry: 7200, ReqExpiry: 1, End: "close", OfflineMs: 300, Restart: true, Sweep: true},
+		)
+	}
+	if RedisCfgFault != nil {
+		cs = append(cs,
+			RCase{V: 5, CfgExpiry: 7200, ReqExpiry: 3600, End: "close", Terminate: true, OfflineMs: 100, RefuseQueueDel: true},
+			RCase{V: 4, CfgExpiry: 7200, ReqExpiry: 1, End: "disconnect", Terminate: true, OfflineMs: 100, RefuseQueueDel: true},
+			RCase{V: 5, CfgExpiry: 7200, ReqExpiry: 0, End: "disconnect", OfflineMs: 100, RefuseQueueDel: true},
+			RCase{V: 4, CfgExpiry: 7200, ReqExpiry: 0, End: "close", OfflineMs: 100, RefuseQueueDel: true, Sweep: true},
 		)
 	}
 	for len(cs) < n {
@@ -793,6 +821,9 @@ func Run(r *monitor.Run) {
 			r.Violation(f.Sig, f.What, map[string]any{"resume_case": c})
 		}
 		r.Count("resume_cases", 1)
+		if c.RefuseQueueDel {
+			r.Count("resume_cases_with_refused_queue_clean_up", 1)
+		}
 		if c.Restart {
 			r.Count("resume_cases_with_broker_restart_on_redis", 1)
 		}
